@@ -21,6 +21,7 @@ import drv_sphere
 import drv_precession
 import drv_sunearth
 import drv_geocentric
+import drv_api
 
 YMIN, YMAX = -4712, 6000
 
@@ -685,4 +686,39 @@ def plan_C09(tier, seed):
         assumptions=["minor-body cases whose line of sight lies within 0.06 deg of the orbital plane are skipped (the plane equation cannot fix the distance)"])
 
 
-PLANS = {"C09": plan_C09, "C08": plan_C08, "C06": plan_C06, "C05": plan_C05, "C18": plan_C18, "C11": plan_C11, "C07": plan_C07, "C14": plan_C14, "C15": plan_C15, "C13": plan_C13, "C12": plan_C12, "C17": plan_C17, "C02": plan_C02, "C03": plan_C03, "C04": plan_C04, "C10": plan_C10, "C01": plan_C01, "C16": plan_C16, "C19": plan_C19}
+def _nt_c20(ev):
+    if ev["k"] == "call":
+        return (ev["f"], ev["cls"], ev["variant"], ev["key"])
+    if ev["k"] == "step":
+        o = ev["o"]
+        return ("step", o["t"], o["op"], o["dst"], o["l"], o["r"], o["k"], tuple(ev["sh"]))
+    return (ev["k"], ev.get("f"), ev.get("rep"))
+
+
+def plan_C20(tier, seed):
+    T = ("Trace_Api", "Trace.cfg")
+    parts, reps, passes = (14, 3, 2) if tier == "quick" else (16, 20, 4)
+    sh = [Shard("api_%02d" % i, drv_api.gen_calls, dict(seed=seed, part=i, parts=parts, reps=reps, with_ill=True, passes=passes), *T)
+          for i in range(parts)]
+    sh += _heap_shards("angle", tier, seed, 2) + _heap_shards("epoch", tier, seed, 1)
+    return dict(
+        mc=[MC("MC_ObjHeap", "MC_ObjHeap_angle.cfg", workers=1, heap="3g", env={"HEAP_DEPTH": "2"},
+               note="object heap: operators allocate, in-place forms rebind, only documented mutators write (depth 2, all sequences)"),
+            MC("MC_ObjHeap", "MC_ObjHeap_epoch.cfg", workers=1, heap="3g", env={"HEAP_DEPTH": "2"}, note="same for Epoch")],
+        shards=sh, level="model_checking", exhaustive=False, nontrivial=_nt_c20,
+        rule="The catalogue is built by introspection: every public function, static method and method of the 19 modules (about "
+             "300 callables incl. the operator-free dunders each class defines). Per callable: `reps` seeded well-typed in-domain "
+             "argument sets (docstring :type: lines + a curated domain table) and one ill-typed variant per argument (None, str, "
+             "complex, list for a scalar) plus wrong arities; then the same well-typed calls again in shuffled order. Each call logs "
+             "digests of every argument object (incl. self) before/after, of all module-level tables, constants and class "
+             "attributes before/after, of the result, its finiteness and the outcome class. TLC keeps the module-state digest and a "
+             "memo (call signature -> outcome) as specification state and checks frame conditions, determinism across the history, "
+             "totality, finiteness and clean rejection at every step. Copy-constructor scenarios (Angle, Epoch, Interpolation, "
+             "CurveFitting) and TLC-generated heap behaviours for Angle/Epoch are validated as well.",
+        assumptions=["an ill-typed argument that is accepted and yields a finite value of the usual shape is not a violation (truthy flags); "
+                     "returning None/NaN or raising anything but TypeError/ValueError is",
+                     "Epoch.utc2local (host clock) is excluded from the determinism clause; documented mutators may change self",
+                     "VSOP87/periodic-term tables are digested every 40 calls (cost), the small tables and class attributes every call"])
+
+
+PLANS = {"C20": plan_C20, "C09": plan_C09, "C08": plan_C08, "C06": plan_C06, "C05": plan_C05, "C18": plan_C18, "C11": plan_C11, "C07": plan_C07, "C14": plan_C14, "C15": plan_C15, "C13": plan_C13, "C12": plan_C12, "C17": plan_C17, "C02": plan_C02, "C03": plan_C03, "C04": plan_C04, "C10": plan_C10, "C01": plan_C01, "C16": plan_C16, "C19": plan_C19}
